@@ -25,7 +25,10 @@ RULE = ("one evaluation = one seeded problem (scan 5-12 incl. odd/non-square, de
         "injected after j batches of pass 1 or 2 and a retry with a smaller batch; every call is "
         "compared with a FRESH instance run full-batch. Riding along on the same instances: "
         "linearity (alpha*A+beta*B), complementary sub-mask recombination with aperture weights "
-        "(ssb/prlx/icom) and the two analytic parallax limits (10 lines of NumPy). "
+        "(ssb/prlx/icom), the two analytic parallax limits (NumPy, incl. rotation), per-call "
+        "rotation/aberration overrides, and an instance built with crop_bf_mask=True (padding 0-2) "
+        "that must reproduce the un-cropped instance. Module-level size/chunk constants of "
+        "quantem.* are lowered per run (tuning-knob randomisation). "
         "distinct_nontrivial = distinct (problem, history) digests with >= 2 batches in some call.")
 SCHED_MEASURE = "distinct (kernel, num_bf, batch size, fault pass/position) schedule signatures"
 SIM_TIME_NOTE = "no clock in this engine; sim_time_s is 0"
